@@ -386,7 +386,7 @@ pub fn check_reads(values: &[i128], r: &Reader) -> Option<Outcome> {
 
 /// IntVec / UintVector outcome class: order of the packed u64 image, then the buckets at which int_vec.rs switches
 /// strategy (`len < 4` raw; `len <= 1000 || width <= 16` MinMax else BlockBased in analyze_small_dataset_strategy;
-/// `len > 10000` analyze_optimal_strategy), and for MinMax-sized inputs the range width bucket (<=16, 17..58,
+/// `len > 10000` analyze_optimal_strategy), and where MinMax may be chosen the range width bucket (<=16, 17..58,
 /// 59..63 = bit fields that do not fit one unaligned 64-bit load, 64).  Sorted inputs take the Delta path whatever
 /// their size.
 fn generic_class(values: &[i128]) -> String {
@@ -405,10 +405,18 @@ fn generic_class(values: &[i128]) -> String {
             };
             format!("unsorted/n4..1000/{wb}")
         }
-        n => {
-            let nb = if n <= 10000 { "n1001..10000" } else { "n>10000" };
+        1001..=10000 => {
             let wb = if matches!(wc, "w-" | "w0" | "w1..16") { "w<=16" } else { "w>16" };
-            format!("unsorted/{nb}/{wb}")
+            format!("unsorted/n1001..10000/{wb}")
+        }
+        _ => {
+            let wb = match wc {
+                "w-" | "w0" | "w1..16" => "w<=16",
+                "w59..63" => "w59..63",
+                "w64" => "w64",
+                _ => "w17..58",
+            };
+            format!("unsorted/n>10000/{wb}")
         }
     }
 }
